@@ -138,6 +138,23 @@ func buildFixture() *schemabuilder.Schema {
 		}
 		return out, nil
 	})
+	// resolvers that promise non-null and return nil for some objects (the sparse shape): thunder must answer with an
+	// error, never pass the null on
+	shape.BatchFieldFunc("reqBatched", func(ctx context.Context, in map[batch.Index]*Shape) (map[batch.Index]*Leaf, error) {
+		out := map[batch.Index]*Leaf{}
+		for i, sh := range in {
+			out[i] = sh.PL
+		}
+		return out, nil
+	}, schemabuilder.NonNullable)
+	shape.BatchFieldFunc("reqBatchedName", func(ctx context.Context, in map[batch.Index]*Shape) (map[batch.Index]*string, error) {
+		out := map[batch.Index]*string{}
+		for i, sh := range in {
+			out[i] = sh.PS
+		}
+		return out, nil
+	}, schemabuilder.NonNullable)
+	shape.FieldFunc("reqLeaf", func(sh *Shape) *Leaf { return sh.PL }, schemabuilder.NonNullable)
 	shape.FieldFunc("leaves", func(sh *Shape) []Leaf { return sh.VLs })
 	shape.FieldFunc("union", func(sh *Shape) *Either {
 		if sh.PL != nil {
@@ -413,6 +430,9 @@ func run(rp *explore.Report, tier string) {
 			} else {
 				res, err = gqlfix.Exec(context.Background(), schema, sched, c.text, nil)
 			}
+			if err != nil && strings.Contains(err.Error(), "non-nullable but returned a null value") {
+				continue // a resolver broke its own non-null promise: refusing the whole answer is the conforming outcome
+			}
 			if err != nil {
 				fail("accepted-cannot-go-wrong", c.kind, c.text, "execution of an accepted query failed (scheduler %d): %v", si, err)
 				continue
@@ -427,5 +447,5 @@ func run(rp *explore.Report, tier string) {
 
 func init() {
 	reg.Register(&reg.Harness{Property: "C14", Name: "c14/advertised", Level: "exploration", Run: run,
-		Rule: "fixture of Go shapes (all scalar widths, named scalars, enum, time, bytes, text-marshaler, pointers, slices of values/pointers/enums, nested and value structs, union, NonNullable / ListEntryNonNullable / Expensive / batch methods, methods with every signature form, arguments incl. input objects) -> introspection JSON. From the JSON alone: every path of composite fields up to depth 2 (thorough 3), ending in all leaves / all fields / each field alone / the same field under two aliases (arguments filled from advertised input types), plus at every position the three ill-formedness kinds (unknown field, selection on a leaf, none on a composite), plus one named fragment (each field of each object type) spread at two positions: the same type twice (well-formed) or a second type that lacks the field or has it with the other leaf/composite kind (ill-formed), in both orders; plus one composite field selected under one alias with two different sub-selections at two paths to the same (long-lived) object. Oracle: ill-formed => rejected; well-formed => accepted, executes without error under FIFO and LIFO schedulers and inside a reactive rerunner, and the response conforms to the advertised types (exact aliases, lists, scalar JSON kinds, enum values, null only where nullable, list entries excepted)"})
+		Rule: "fixture of Go shapes (all scalar widths, named scalars, enum, time, bytes, text-marshaler, pointers, slices of values/pointers/enums, nested and value structs, union, NonNullable / ListEntryNonNullable / Expensive / batch methods, NonNullable plain and batch methods (object and scalar pointers) that return nil for some objects, methods with every signature form, arguments incl. input objects) -> introspection JSON. From the JSON alone: every path of composite fields up to depth 2 (thorough 3), ending in all leaves / all fields / each field alone / the same field under two aliases (arguments filled from advertised input types), plus at every position the three ill-formedness kinds (unknown field, selection on a leaf, none on a composite), plus one named fragment (each field of each object type) spread at two positions: the same type twice (well-formed) or a second type that lacks the field or has it with the other leaf/composite kind (ill-formed), in both orders; plus one composite field selected under one alias with two different sub-selections at two paths to the same (long-lived) object. Oracle: ill-formed => rejected; well-formed => accepted, executes without error under FIFO and LIFO schedulers and inside a reactive rerunner, and the response conforms to the advertised types (exact aliases, lists, scalar JSON kinds, enum values, null only where nullable, list entries excepted)"})
 }
